@@ -51,7 +51,7 @@ Extraction "selen_model.ml"
   tsmin_range_f tsmax_range_f fop_apply fop_run magn_b magn_op_b
   mk_flin_eq mk_flin_le mk_flin_ne mk_flin_eq_reif mk_flin_le_reif mk_flin_ne_reif mk_fleq mk_flt mk_fgeq mk_fgt mk_feq mk_ilin_le_mixed
   fpropagate_all fsolve_first fminimize_seq fall_assigned fsolution
-  root_lp_gate fast_path_consulted dispatch lp_rows lp_vars
+  root_lp_gate fast_path_consulted dispatch lp_rows lp_vars linear_lowering
   lin_in_rangeb cons_in_rangeb expr_in_rangeb emag boundedb add_in_rangeb sum_in_rangeb view_in_rangeb vset_in_rangeb
   cprune_lin_eq cprune_lin_le cprune_lin_ne cprune_lin_eq_reif cprune_lin_le_reif cprune_lin_ne_reif cprune_add cprune_sum cvbnd cvset
   parse_string solve_sudoku_exec solve_sudoku_string_exec solve_general_exec valid_sudokub agreesb clues_okb
